@@ -412,4 +412,26 @@ def run (decodes : Bytes → Bool) : Sys → List Op → Sys × List Out
     let (s2, os) := run decodes s1 ops
     (s2, o :: os)
 
+/- ------------------------------------------------- worker-side spec -- -/
+
+/-- Spec of the command channel's *user* (`lib/src/server.rs`: requests read
+    from the channel, answers queued and flushed by `send_queue`): the final
+    answers come back exactly once, in request order.  State = ids of the
+    requests not answered yet, oldest first. -/
+inductive WEv where
+  | req (id : Nat)          -- the main process sent a request
+  | read (k : Nat)          -- the main process reads until it has k final answers (or nothing more comes)
+deriving Repr, DecidableEq, Inhabited
+
+def wstep (q : List Nat) : WEv → List Nat × List Nat
+  | .req i => (q ++ [i], [])
+  | .read k => (q.drop k, q.take k)
+
+def wrun : List Nat → List WEv → List Nat × List (List Nat)
+  | q, [] => (q, [])
+  | q, e :: es =>
+    let (q1, o) := wstep q e
+    let (q2, os) := wrun q1 es
+    (q2, o :: os)
+
 end Sozu.Channel
